@@ -1624,10 +1624,16 @@ void Validator::ValidatorImpl::validateMath(const std::string &input, const Comp
 
         mathNode = mathmlDoc->rootNode();
 
-        auto childCount = mathmlChildCount(mathNode);
+        if (mathNode != nullptr) {
+            // Note: there is no root node when the clean math string is not
+            //       well-formed anymore (e.g., an element with both a type and a
+            //       cellml:type attribute), which has been reported above.
 
-        for (size_t i = 0; i < childCount; ++i) {
-            validateMathMLElementsChildrenAndSiblings(mathmlChildNode(mathNode, i), component);
+            auto childCount = mathmlChildCount(mathNode);
+
+            for (size_t i = 0; i < childCount; ++i) {
+                validateMathMLElementsChildrenAndSiblings(mathmlChildNode(mathNode, i), component);
+            }
         }
     }
 }
